@@ -383,7 +383,7 @@ fn c20_case(c: &SerCase) -> CaseResult {
 
 pub fn c20(ctx: &mut Ctx) {
     crate::fuzz_api::replay_raw_saved(ctx);
-    ctx.rule = "arbitrary values of i64, u64, f64 (bit patterns), usize, bool, String, Vec<u8>, nested vectors, SystemTime (pre-epoch, epoch, far future, sub-second), UTF-8 PathBuf, SocketAddr/IpAddr (v4, v6, mapped, scoped), DbValue, DbKeyValue, DbId, DbKeyOrder, QueryId(s), QueryValues, conditions (nested where to depth 4), SearchQuery, every query through QueryType (built by the same grammar as the histories), and a corpus of derived user types (named / tuple / unit / empty structs, a generic struct, enums with unit / tuple / multi-field / struct variants, nested enums-in-structs-in-vectors). Oracle: T::deserialize(x.serialize()) is Ok and equals x (Debug text and re-serialized bytes, so floats compare bitwise) and x.serialized_size() == x.serialize().len(). Non-trivial: the value has a variable-length component. Distinct = hash of (type, bytes). IPv6 socket addresses are generated with flow label 0 (what parsing text or the OS yields; a non-zero flow label is outside the textual encoding the codec documents).".into();
+    ctx.rule = "arbitrary values of i64, u64, f64 (bit patterns), usize, bool, String, Vec<u8>, nested vectors, SystemTime (pre-epoch, epoch, far future, sub-second), UTF-8 PathBuf, SocketAddr/IpAddr (v4, v6, mapped, scoped), DbValue, DbKeyValue, DbId, DbKeyOrder, QueryId(s), QueryValues, conditions (nested where to depth 4), SearchQuery, every query through QueryType (built by the same grammar as the histories), and a corpus of derived user types (named / tuple / unit / empty structs, a generic struct, enums with unit / tuple / multi-field / struct variants, nested enums-in-structs-in-vectors, vectors of unit / empty structs - elements of zero bytes - alone and as a field before shorter fields). Oracle: T::deserialize(x.serialize()) is Ok and equals x (Debug text and re-serialized bytes, so floats compare bitwise) and x.serialized_size() == x.serialize().len(). Non-trivial: the value has a variable-length component. Distinct = hash of (type, bytes). IPv6 socket addresses are generated with flow label 0 (what parsing text or the OS yields; a non-zero flow label is outside the textual encoding the codec documents).".into();
     let cases = ctx.tier.pick(1_500_000, 6_000_000);
     replay_saved::<SerCase, _>(ctx, "c20-roundtrip", c20_case);
     run_campaign(ctx, CampaignCfg { name: "c20-roundtrip", cases, max_shrink_iters: 2000, max_restarts: 3 }, ser_case, c20_case);
